@@ -2,6 +2,7 @@ package unmarshal
 
 import (
 	"bytes"
+	"encoding/json"
 	"fmt"
 	"github.com/go-faster/city"
 	"github.com/go-faster/jx"
@@ -243,10 +244,20 @@ func (p *pushRequestDec) decodeStreamEntry(d *jx.Decoder) error {
 var DecodePushRequestStringV2 = Build(
 	withLogsParser(func(ctx *ParserCtx) iLogsParser { return &pushRequestDec{ctx: ctx} }))
 
+// quoteJSON returns s as a JSON string literal. strconv.Quote must not be used for that:
+// its \a, \v, \xNN and \UNNNNNNNN escapes are Go syntax, not JSON.
+func quoteJSON(s string) string {
+	var sb strings.Builder
+	enc := json.NewEncoder(&sb)
+	enc.SetEscapeHTML(false)
+	_ = enc.Encode(s)
+	return strings.TrimSuffix(sb.String(), "\n")
+}
+
 func encodeLabels(lbls [][]string) string {
 	arrLbls := make([]string, len(lbls))
 	for i, l := range lbls {
-		arrLbls[i] = fmt.Sprintf("%s:%s", strconv.Quote(l[0]), strconv.Quote(l[1]))
+		arrLbls[i] = fmt.Sprintf("%s:%s", quoteJSON(l[0]), quoteJSON(l[1]))
 	}
 	return fmt.Sprintf("{%s}", strings.Join(arrLbls, ","))
 }
